@@ -200,11 +200,18 @@ type caseT struct {
 func enumReaderCases(mode string, seed int64, thorough bool, n int) []func() (caseT, bool) {
 	var gens []func() (caseT, bool)
 	rnd := rand.New(rand.NewSource(seed*48271 + 11))
-	nstreams := 4
+	nstreams := 6
 	maxLen := 700
 	if thorough {
 		nstreams = 14
 		maxLen = 4200
+	}
+	if mode == "c09x" {
+		// the outcome of a cut depends on the bit alignment of the block payloads: many small streams
+		nstreams = 16
+		if thorough {
+			nstreams = 60
+		}
 	}
 	if mode == "c11x" {
 		nstreams = 3
@@ -213,7 +220,7 @@ func enumReaderCases(mode string, seed int64, thorough bool, n int) []func() (ca
 		}
 	}
 	k := 0
-	for si := 0; si < nstreams*6 && nstreams > 0; si++ {
+	for si := 0; si < 400 && nstreams > 0; si++ {
 		B := uint(1024)
 		pair := fastPairs[rnd.Intn(12)]
 		nb := 1 + rnd.Intn(4)
